@@ -278,7 +278,7 @@ func callSubscriptionsListen(ctx context.Context, conn *jsonrpc2.Connection, met
 
 	go func() {
 		<-ctx.Done()
-		_ = cancelCall(ctx, conn, call)
+		_ = cancelCall(ctx, conn, call, params)
 	}()
 }
 
@@ -301,23 +301,49 @@ func call(ctx context.Context, conn *jsonrpc2.Connection, method string, params 
 		// Setting MCPGODEBUG=blockingcancelnotify=1 restores the previous
 		// behavior of waiting synchronously for delivery inside cancelCall.
 		if blockingcancelnotify == "1" {
-			err := cancelCall(ctx, conn, call)
+			err := cancelCall(ctx, conn, call, params)
 			return errors.Join(ctx.Err(), err)
 		}
 		conn.Retire(call, ctx.Err())
 		go func() {
 			notifyCtx, stop := context.WithTimeout(context.WithoutCancel(ctx), notifyCancellationTimeout)
 			defer stop()
-			_ = conn.Notify(notifyCtx, notificationCancelled, &CancelledParams{
-				Reason:    ctx.Err().Error(),
-				RequestID: call.ID().Raw(),
-			})
+			_ = conn.Notify(notifyCtx, notificationCancelled, newCancelledParams(ctx.Err(), call, params))
 		}()
 		return ctx.Err()
 	case err != nil:
 		return fmt.Errorf("calling %q: %w", method, err)
 	}
 	return nil
+}
+
+// newCancelledParams returns the payload of the "notifications/cancelled"
+// notification for call, which was made with params.
+//
+// Under the 2026-07-28 protocol every message carries the per-request _meta
+// fields of SEP-2575, and a server refuses a message without them (HTTP 400 on
+// the streamable transport, which the client treats as a fatal transport
+// error). The notice therefore inherits them from the request it cancels.
+func newCancelledParams(reason error, call *jsonrpc2.AsyncCall, params Params) *CancelledParams {
+	cp := &CancelledParams{
+		Reason:    reason.Error(),
+		RequestID: call.ID().Raw(),
+	}
+	if params == nil || params.isNil() {
+		return cp
+	}
+	m := params.GetMeta()
+	if _, ok := m[MetaKeyProtocolVersion]; !ok {
+		return cp
+	}
+	meta := make(map[string]any)
+	for _, k := range []string{MetaKeyProtocolVersion, MetaKeyClientInfo, MetaKeyClientCapabilities} {
+		if v, ok := m[k]; ok {
+			meta[k] = v
+		}
+	}
+	cp.SetMeta(meta)
+	return cp
 }
 
 // cancelCall sends a "notifications/cancelled" notification for call and eagerly
@@ -333,13 +359,10 @@ func call(ctx context.Context, conn *jsonrpc2.Connection, method string, params 
 // Therefore, we choose to eagerly retire calls, removing them from the
 // outgoingCalls map, when the caller context is cancelled: if the caller will
 // never receive the response, there's no need to track it.
-func cancelCall(ctx context.Context, conn *jsonrpc2.Connection, call *jsonrpc2.AsyncCall) error {
+func cancelCall(ctx context.Context, conn *jsonrpc2.Connection, call *jsonrpc2.AsyncCall, params Params) error {
 	notifyCtx, cancelNotify := context.WithTimeout(context.WithoutCancel(ctx), notifyCancellationTimeout)
 	defer cancelNotify()
-	err := conn.Notify(notifyCtx, notificationCancelled, &CancelledParams{
-		Reason:    ctx.Err().Error(),
-		RequestID: call.ID().Raw(),
-	})
+	err := conn.Notify(notifyCtx, notificationCancelled, newCancelledParams(ctx.Err(), call, params))
 	conn.Retire(call, ctx.Err())
 	return err
 }
